@@ -77,7 +77,6 @@ GAME_OPS = {
     "sm": ["SMToOsu", "SMToQua", "SMToBMS", "write", "write_file", "map_write"],
     "o2j": ["O2JToOsu", "O2JToQua", "O2JToSM", "O2JToSM_merge", "O2JToBMS"],
 }
-CONVERTERS = {n for ops in GAME_OPS.values() for n in ops if "To" in n}
 BMS_CONFIGS = ["BME", "BMS", "PMS", "PMS_BME", "PMS_5B"]
 BMS_CONFIG_KEYS = {"BME": 16, "BMS": 14, "PMS": 9, "PMS_BME": 18, "PMS_5B": 5}
 
@@ -463,16 +462,14 @@ class Env:
         self.maps = _maps_of(obj)
         self.is_set = hasattr(obj, "maps")
         self.other = other
-        self.variant = None
+        self.variants = []
 
     def map(self, o):
         return self.maps[o["mi"] % len(self.maps)]
 
-    def target(self, o):
-        """container or one chart of it"""
-        if self.is_set and not o["f"][3]:
-            return self.map(o)
-        return self.obj
+    def targets(self, o):
+        """the argument, and for a set also one chart of it"""
+        return [self.obj, self.map(o)] if self.is_set else [self.obj]
 
     def sibling(self, tl):
         for i, m in enumerate(self.maps):
@@ -483,30 +480,34 @@ class Env:
 
 
 def _m_rate(env, o):
-    tgt = env.target(o)
-    env.variant = type(tgt).__name__
-    return [(tgt.rate(o["r"]), "deep")]
+    out = []
+    for tgt in env.targets(o):
+        env.variants.append(type(tgt).__name__)
+        out.append((tgt.rate(o["r"]), "deep"))
+    return out
 
 
 def _m_deepcopy(env, o):
-    tgt = env.target(o)
-    env.variant = type(tgt).__name__
-    return [(tgt.deepcopy(), "deep")]
+    out = []
+    for tgt in env.targets(o):
+        env.variants.append(type(tgt).__name__)
+        out.append((tgt.deepcopy(), "deep"))
+    return out
 
 
 def _m_stack_read(env, o):
+    from reamber.base.lists.notes.HoldList import HoldList
     from reamber.base.lists.notes.NoteList import NoteList
 
     out = []
-    if env.is_set and o["f"][3]:
-        env.variant = "MapSet"
+    if env.is_set:
+        env.variants.append("MapSet")
         s = env.obj.stack()
         out += [s.offset, s.column, s["offset"]]
         out.append(env.obj[NoteList])
         out.append(list(env.obj.items()))
-        return [(out, None)]
     m = env.map(o)
-    env.variant = "Map"
+    env.variants.append("Map")
     s = m.stack()
     out += [s.offset, s.column, s.bpm, s.length, s["offset"]]
     out.append(s.loc[s.offset > o["t"], "offset"])
@@ -514,8 +515,6 @@ def _m_stack_read(env, o):
     out.append(s.offset[s.column < o["k"]])
     out.append(m.notes)
     out.append(m[NoteList])
-    from reamber.base.lists.notes.HoldList import HoldList
-
     s2 = m.stack((HoldList,))
     out.append(s2.offset)
     return [(out, None)]
@@ -524,11 +523,11 @@ def _m_stack_read(env, o):
 def _m_describe(env, o):
     if env.is_set:
         if o["f"][3]:
-            env.variant = "MapSet"
+            env.variants.append("MapSet")
             return [(env.obj.describe(rounding=o["k"] % 4, unicode=o["f"][0]), None)]
-        env.variant = "Map(set)"
+        env.variants.append("Map(set)")
         return [(env.map(o).describe(env.obj, rounding=o["k"] % 4, unicode=o["f"][0]), None)]
-    env.variant = "Map"
+    env.variants.append("Map")
     return [(env.obj.describe(rounding=o["k"] % 4, unicode=o["f"][0]), None)]
 
 
@@ -595,7 +594,7 @@ def _m_hitsound_copy(env, o):
     role = ["src", "tgt", "both"][o["k"] % 3]
     if env.other is None:
         role = "both"
-    env.variant = role
+    env.variants.append(role)
     if role == "src":
         return [(hitsound_copy(env.obj, env.other), "deep")]
     if role == "tgt":
@@ -608,7 +607,7 @@ def _m_write(env, o):
         from reamber.bms.BMSChannel import BMSChannel
 
         name = _bms_config(env, o)
-        env.variant = name
+        env.variants.append(name)
         cfg = getattr(BMSChannel, name)
         if o["f"][0]:
             return [(env.obj.write(note_channel_config=cfg), None)]
@@ -630,7 +629,7 @@ def _m_write_file(env, o):
             from reamber.bms.BMSChannel import BMSChannel
 
             name = _bms_config(env, o)
-            env.variant = name
+            env.variants.append(name)
             env.obj.write_file(path, note_channel_config=getattr(BMSChannel, name))
         else:
             env.obj.write_file(path)
@@ -705,6 +704,10 @@ MAP_TABLE = {
 }
 
 
+assert set(LIST_OPS) == set(LIST_TABLE), "operation catalogue and list table differ"
+assert set(MAP_OPS) | {n for v in GAME_OPS.values() for n in v} == set(MAP_TABLE), "operation catalogue and chart table differ"
+
+
 # --------------------------------------------------------------------------------------------------------------
 # the check
 # --------------------------------------------------------------------------------------------------------------
@@ -735,7 +738,7 @@ def _diff(a, b, path=""):
 def _run_op(env, o):
     """-> (results [(res, mode)], raised: str|None)"""
     name = o["op"]
-    env.variant = None
+    env.variants = []
     if name in LIST_TABLE:
         ok, fn, is_copy = LIST_TABLE[name]
         results, raised, ran = [], None, 0
@@ -752,7 +755,7 @@ def _run_op(env, o):
                 if is_copy:
                     results.append((r, "list"))
         if not ran:
-            env.variant = "no-applicable-list"
+            env.variants.append("no-applicable-list")
         return results, raised
     try:
         return MAP_TABLE[name](env, o), None
@@ -791,11 +794,11 @@ def check(case, ctx):
         ctx.harness(name in ops_of(game), f"operation {name} is not defined for {game}")
         results, raised = _run_op(env, o)
         ctx.label("op=" + name)
-        if env.variant:
-            ctx.label(f"op={name}[{env.variant}]")
+        for v in env.variants:
+            ctx.label(f"op={name}[{v}]")
         if raised:
             ctx.label("raised=" + name)
-        elif env.variant != "no-applicable-list":
+        elif "no-applicable-list" not in env.variants:
             ctx.label("ran-clean=" + name)
         after = B.snapshot(obj)
         if after != before:
